@@ -1,11 +1,15 @@
 import ChiModel.LogLik
+import ChiProofs.Props.C04
 import Mathlib.Data.List.Sort
 import Mathlib.Order.Basic
 
 /-!
 # C01 — individual log-likelihood sums each observation's density exactly once
 -/
+set_option linter.unusedSectionVars false
+set_option linter.unusedSimpArgs false
 namespace ChiModel
+open ScalarFns
 variable {α : Type} [Add α] [Sub α] [Mul α] [Div α] [Neg α] [ScalarFns α]
 variable {τ : Type} [LinearOrder τ]
 
@@ -137,5 +141,169 @@ theorem C01_ties_counterexample (f : Nat → Nat → α) (a b c : α) (sig : Lis
     llCall true (ltB (τ := Nat)) [EM.gauss] f [⟨[1, 1, 2], [a, b, c]⟩] sig
       = .error .lengthMismatch := by
   simp [llCall, llCall.go, unionGrid, insertSorted, pickMask]
+
+section generic
+variable {α : Type} [Add α] [Sub α] [Mul α] [Div α] [Neg α] [ScalarFns α]
+
+theorem adjacentOk_of_accepts (n : Nat) (ems : List EM) (data : List (OutData τ α))
+    (h : constructorAccepts (ltB (τ := τ)) n ems data = .ok ()) : WellShaped data := by
+  unfold constructorAccepts at h
+  split at h
+  · cases h
+  · split at h
+    · cases h
+    · split at h
+      · cases h
+      · rename_i h3
+        intro d hd
+        by_contra hne
+        exact h3 (List.any_eq_true.mpr ⟨d, hd, by simpa using hne⟩)
+
+/-- "An object that was constructed without error can be evaluated" (repaired selection):
+    whatever the constructor accepts — ties included — evaluates to the specified sum. -/
+theorem C01_constructed_evaluable (n : Nat) (ems : List EM) (f : Nat → τ → α)
+    (data : List (OutData τ α)) (sig : List α)
+    (h : constructorAccepts (ltB (τ := τ)) n ems data = .ok ()) :
+    llCall false ltB ems f data sig = .ok (llSpec ems f data sig) :=
+  C01_call_eq_spec ems f data sig (adjacentOk_of_accepts n ems data h)
+
+theorem llPointwise_go_length (ems : List EM) (f : Nat → τ → α) (sig : List α)
+    (rest : List (OutData τ α)) (o : Nat) :
+    (llPointwise.go ems f sig o rest).length = (rest.map (·.obs.length)).sum := by
+  induction rest generalizing o with
+  | nil => simp [llPointwise.go]
+  | cons d ds ih =>
+    unfold llPointwise.go
+    simp only [List.length_append, ih, List.map_cons, List.sum_cons]
+    congr 1
+    split <;> simp
+
+/-- the pointwise vector has one entry per measurement -/
+theorem C01_pointwise_length (ems : List EM) (f : Nat → τ → α) (data : List (OutData τ α))
+    (sig : List α) : (llPointwise ems f data sig).length = nObservations data := by
+  unfold llPointwise nObservations
+  exact llPointwise_go_length ems f sig data 0
+
+end generic
+
+/-! ### error-parameter slices: consecutive, disjoint, covering -/
+
+theorem slices_cover {β : Type} (ws : List Nat) : ∀ (sig : List β), sig.length = ws.sum →
+    (List.range ws.length).flatMap (fun i => (sig.drop (ws.take i).sum).take (ws.getD i 0)) = sig := by
+  induction ws with
+  | nil => intro sig h; simp at h; simp [h]
+  | cons w ws ih =>
+    intro sig h
+    rw [List.length_cons, List.range_succ_eq_map, List.flatMap_cons, List.flatMap_map]
+    simp only [List.take_zero, List.sum_nil, List.drop_zero, List.getD_cons_zero,
+      List.take_succ_cons, List.sum_cons, List.getD_cons_succ]
+    have h2 : (sig.drop w).length = ws.sum := by
+      simp only [List.length_drop, h, List.sum_cons]; omega
+    have := ih (sig.drop w) h2
+    simp only [List.drop_drop] at this
+    conv_rhs => rw [← List.take_append_drop w sig]
+    congr 1
+
+/-- output `o` receives exactly its own error parameters: the slices taken in output order
+    concatenate to the error-parameter vector -/
+theorem C01_slices_partition {β : Type} [Add β] [Sub β] [Mul β] [Div β] [Neg β] [ScalarFns β]
+    (ems : List EM) (sig : List β) (h : sig.length = (ems.map EM.nParams).sum) :
+    (List.range ems.length).flatMap (sliceFor ems sig) = sig := by
+  have := slices_cover (ems.map EM.nParams) sig h
+  rw [List.length_map] at this
+  conv_rhs => rw [← this]
+  apply List.flatMap_congr
+  intro o ho
+  have ho' : o < ems.length := List.mem_range.mp ho
+  unfold sliceFor
+  simp only [List.map_take, List.getD_eq_getElem?_getD, List.getElem?_map]
+  simp [List.getElem?_eq_getElem ho']
+
+/-! ### the specified value is the sum over all measurements of the documented log-density -/
+
+theorem emLL_val_eq_sum (k : EM) (sg : List ℝ) (n : Nat) (yb ob : Nat → ℝ) (v : ℝ)
+    (h : emLL k sg n yb ob = .val v) : v = isum n (emPW k sg yb ob) := by
+  unfold emLL at h
+  unfold emPW
+  cases k <;> simp only at h ⊢
+  · unfold gaussLL at h; split at h
+    · cases h
+    · injection h with h; rw [← h]; exact C04_gauss_pointwise_sum ..
+  · unfold multLL at h; split at h
+    · cases h
+    · split at h
+      · cases h
+      · injection h with h; rw [← h]; exact C04_mult_pointwise_sum ..
+  · unfold cmLL at h; split at h
+    · cases h
+    · split at h
+      · cases h
+      · injection h with h; rw [← h]; exact C04_cm_pointwise_sum ..
+  · unfold lnLL at h; split at h
+    · cases h
+    · split at h
+      · cases h
+      · injection h with h; rw [← h]; exact C04_ln_pointwise_sum ..
+
+/-- all outputs inside the support -/
+def AllVal (ems : List EM) (f : Nat → τ → ℝ) (sig : List ℝ) : Nat → List (OutData τ ℝ) → Prop
+  | _, [] => True
+  | o, d :: ds => (∃ v, emLL (ems.getD o .gauss) (sliceFor ems sig o) d.obs.length
+      (vecOf (d.times.map (f o))) (vecOf d.obs) = .val v) ∧ AllVal ems f sig (o + 1) ds
+
+theorem filterMap_some_fun {β γ : Type} (g : β → γ) (l : List β) :
+    l.filterMap (fun j => some (g j)) = l.map g := by
+  induction l <;> simp [*]
+
+theorem isum_eq_lsum_map (n : Nat) (g : Nat → ℝ) :
+    isum n g = ((List.range n).map g).sum := by
+  simp [isum, lsum_real]
+
+theorem spec_go_val (ems : List EM) (f : Nat → τ → ℝ) (sig : List ℝ)
+    (rest : List (OutData τ ℝ)) (o : Nat) (a : ℝ) (h : AllVal ems f sig o rest) :
+    llSpec.go ems f sig o rest (.val a)
+      = .val (a + ((llPointwise.go ems f sig o rest).filterMap id).sum) ∧
+    (llPointwise.go ems f sig o rest).all Option.isSome = true := by
+  induction rest generalizing o a with
+  | nil => simp [llSpec.go, llPointwise.go]
+  | cons d ds ih =>
+    obtain ⟨⟨v, hv⟩, hrest⟩ := h
+    unfold llSpec.go llPointwise.go
+    simp only [hv, Score.add]
+    have := ih (o + 1) (a + v) hrest
+    refine ⟨?_, ?_⟩
+    · rw [this.1]
+      congr 1
+      rw [List.filterMap_append, List.sum_append, emLL_val_eq_sum _ _ _ _ _ _ hv, isum_eq_lsum_map]
+      simp only [List.filterMap_map, Function.comp_def, id, filterMap_some_fun]
+      ring
+    · simp only [List.all_append, this.2, Bool.and_true, List.all_map]
+      simp
+
+/-- C01, meaning of the right-hand side: inside the support the specified value is the sum
+    over ALL measurements (output by output, time order) of the error model's pointwise
+    log-density — which C04 identifies with the log of the documented density at the
+    prediction for the same output and time. Every measurement contributes exactly once. -/
+theorem C01_spec_is_sum_over_measurements (ems : List EM) (f : Nat → τ → ℝ)
+    (data : List (OutData τ ℝ)) (sig : List ℝ) (h : AllVal ems f sig 0 data) :
+    llSpec ems f data sig = .val (((llPointwise ems f data sig).filterMap id).sum) := by
+  unfold llSpec llPointwise Score.zero
+  have := (spec_go_val ems f sig data 0 (ofNat 0) h).1
+  simpa using this
+
+/-- the pointwise log-likelihoods add up to the total returned by `__call__` -/
+theorem C01_pointwise_sum (ems : List EM) (f : Nat → τ → ℝ) (data : List (OutData τ ℝ))
+    (sig : List ℝ) (hshape : WellShaped data) (h : AllVal ems f sig 0 data) :
+    llCall false ltB ems f data sig
+      = .ok (.val (((llPointwise ems f data sig).filterMap id).sum)) := by
+  rw [C01_call_eq_spec ems f data sig hshape, C01_spec_is_sum_over_measurements ems f data sig h]
+
+/-! ### posterior -/
+
+theorem C01_posterior {α : Type} [Add α] [Sub α] [Mul α] [Div α] [Neg α] [ScalarFns α]
+    (p : α) (s : Score α) :
+    logPosterior (.val p) (fun _ => .ok s) = .ok (Score.add (.val p) s) ∧
+    logPosterior (Score.negInf : Score α) (fun _ => .ok s) = .ok .negInf := by
+  simp [logPosterior]
 
 end ChiModel
